@@ -69,45 +69,47 @@ Definition chk (b : bool) (st : bst) : bst := mkBst (done st) (cur st) (next st)
 (* ---------- handle_expression / handle_bool_op ---------- *)
 (* handle_bool_op on operands given as "how to obtain the operand's residual":
    the first operand is obtained now, the second inside the new block *)
-Fixpoint hexpr (fuel : nat) (e : expr) (st : bst) {struct fuel} : rexpr * bst :=
-  match fuel with
-  | O => (RAtom 0, chk false st)
-  | S f =>
-    let hlist := fix hlist (es : list expr) (st : bst) : list rexpr * bst :=
-                   match es with
-                   | [] => ([], st)
-                   | x :: r => let '(rx, st1) := hexpr f x st in
-                               let '(rr, st2) := hlist r st1 in (rx :: rr, st2)
-                   end in
-    (* handle_bool_op with the two operands as thunks *)
-    let boolop (isor : bool) (first second : bst -> rexpr * bst) (st : bst) : rexpr * bst :=
-      let '(k, st0) := newtmp st in
-      let '(l, st1) := first st0 in
-      let st2 := emit (ISet k l) st1 in
-      let other := next st2 in                 (* false block (or) / true block (and) *)
-      let merge := next st2 + 1 in
-      let st3 := emit (ITest (RTmp k)) (bump 2 st2) in
-      let st4 := addblk other (setjt (if isor then [merge; other] else [other; merge]) st3) in
-      let '(r, st5) := second st4 in
-      let st6 := addblk merge (setjt [merge] (emit (ISet k r) st5)) in
-      (RTmp k, st6) in
-    match e with
-    | EAtom a => (RAtom a, st)
-    | EOp c es => let '(rs, st1) := hlist es st in (ROp c rs, st1)
-    | EBool isor [a; b] =>
-      (* two operands: both are processed first, then cut *)
-      let '(ra, st1) := hexpr f a st in
-      let '(rb, st2) := hexpr f b st1 in
-      boolop isor (fun s => (ra, s)) (fun s => (rb, s)) st2
-    | EBool isor (a :: rest) =>
-      (* more than two: the first now, the others (as one and/or) in the new block *)
-      boolop isor (fun s => hexpr f a s) (fun s => hexpr f (EBool isor rest) s) st
-    | EBool _ [] => (RAtom 0, chk false st)
-    end
+(* handle_bool_op: the first operand's residual is obtained now, the second inside the new block *)
+Definition boolop (isor : bool) (first second : bst -> rexpr * bst) (st : bst) : rexpr * bst :=
+  let '(k, st0) := newtmp st in
+  let '(l, st1) := first st0 in
+  let st2 := emit (ISet k l) st1 in
+  let other := next st2 in                 (* false block (or) / true block (and) *)
+  let merge := next st2 + 1 in
+  let st3 := emit (ITest (RTmp k)) (bump 2 st2) in
+  let st4 := addblk other (setjt (if isor then [merge; other] else [other; merge]) st3) in
+  let '(r, st5) := second st4 in
+  let st6 := addblk merge (setjt [merge] (emit (ISet k r) st5)) in
+  (RTmp k, st6).
+
+Fixpoint hexpr (e : expr) (st : bst) {struct e} : rexpr * bst :=
+  match e with
+  | EAtom a => (RAtom a, st)
+  | EOp c es =>
+    let '(rs, st1) := (fix hlist (es : list expr) (st : bst) : list rexpr * bst :=
+                         match es with
+                         | [] => ([], st)
+                         | x :: r => let '(rx, st1) := hexpr x st in
+                                     let '(rr, st2) := hlist r st1 in (rx :: rr, st2)
+                         end) es st in
+    (ROp c rs, st1)
+  | EBool isor es =>
+    (fix chain (es : list expr) (st : bst) : rexpr * bst :=
+       match es with
+       | [] => (RAtom 0, chk false st)
+       | [a] => (RAtom 0, chk false st)
+       | [a; b] =>
+         (* two operands: both are processed first, then cut *)
+         let '(ra, st1) := hexpr a st in
+         let '(rb, st2) := hexpr b st1 in
+         boolop isor (fun s => (ra, s)) (fun s => (rb, s)) st2
+       | a :: rest =>
+         (* more than two: the first now, the others (as one and/or) in the new block *)
+         boolop isor (fun s => hexpr a s) (fun s => chain rest s) st
+       end) es st
   end.
 
-Definition EFUEL : nat := 200%nat.
-Definition hx (e : expr) (st : bst) : rexpr * bst := hexpr EFUEL e st.
+Definition hx (e : expr) (st : bst) : rexpr * bst := hexpr e st.
 
 (* ---------- statements ---------- *)
 Definition last_instr (b : blk) : option instr := last (map Some (b_ins b)) None.
@@ -183,58 +185,53 @@ Inductive outcome :=
 | ORet (a : Z) (s : state) | ORaise | OFuel | OStuck.
 
 (* Python's order of evaluation: operands left to right; and/or stop as soon as the result is known *)
-Fixpoint eval (fuel : nat) (e : expr) (s : state) {struct fuel} : option (Z * state) :=
-  match fuel with
-  | O => None
-  | S f =>
-    let evlist := fix evlist (es : list expr) (s : state) : option (list Z * state) :=
-                    match es with
-                    | [] => Some ([], s)
-                    | x :: r => match eval f x s with
-                                | Some (v, s1) => match evlist r s1 with
-                                                  | Some (vs, s2) => Some (v :: vs, s2)
-                                                  | None => None end
-                                | None => None end
-                    end in
-    match e with
-    | EAtom a => aval a s
-    | EOp c es => match evlist es s with Some (vs, s1) => opf c vs s1 | None => None end
-    | EBool isor es =>
-      (fix chain (es : list expr) (s : state) : option (Z * state) :=
-         match es with
-         | [] => None
-         | [x] => eval f x s
-         | x :: r => match eval f x s with
-                     | Some (v, s1) => if Bool.eqb (negb (Z.eqb v 0)) isor then Some (v, s1) else chain r s1
-                     | None => None end
-         end) es s
+Fixpoint eval (e : expr) (s : state) {struct e} : option (Z * state) :=
+  match e with
+  | EAtom a => aval a s
+  | EOp c es =>
+    match (fix evlist (es : list expr) (s : state) : option (list Z * state) :=
+             match es with
+             | [] => Some ([], s)
+             | x :: r => match eval x s with
+                         | Some (v, s1) => match evlist r s1 with
+                                           | Some (vs, s2) => Some (v :: vs, s2)
+                                           | None => None end
+                         | None => None end
+             end) es s with
+    | Some (vs, s1) => opf c vs s1
+    | None => None
     end
+  | EBool isor es =>
+    (fix chain (es : list expr) (s : state) : option (Z * state) :=
+       match es with
+       | [] => None
+       | [x] => eval x s
+       | x :: r => match eval x s with
+                   | Some (v, s1) => if Bool.eqb (negb (Z.eqb v 0)) isor then Some (v, s1) else chain r s1
+                   | None => None end
+       end) es s
   end.
 
 Definition truth (v : Z) : bool := negb (Z.eqb v 0).
 
 (* residual expressions read the temporaries *)
 Definition tenv := list (Z * Z).
-Fixpoint reval (fuel : nat) (e : rexpr) (te : tenv) (s : state) {struct fuel} : option (Z * state) :=
-  match fuel with
-  | O => None
-  | S f =>
-    match e with
-    | RAtom a => aval a s
-    | RTmp k => match find (fun p => Z.eqb (fst p) k) te with Some p => Some (snd p, s) | None => None end
-    | ROp c es =>
-      match (fix evlist (es : list rexpr) (s : state) : option (list Z * state) :=
-               match es with
-               | [] => Some ([], s)
-               | x :: r => match reval f x te s with
-                           | Some (v, s1) => match evlist r s1 with
-                                             | Some (vs, s2) => Some (v :: vs, s2)
-                                             | None => None end
-                           | None => None end
-               end) es s with
-      | Some (vs, s1) => opf c vs s1
-      | None => None
-      end
+Fixpoint reval (e : rexpr) (te : tenv) (s : state) {struct e} : option (Z * state) :=
+  match e with
+  | RAtom a => aval a s
+  | RTmp k => match find (fun p => Z.eqb (fst p) k) te with Some p => Some (snd p, s) | None => None end
+  | ROp c es =>
+    match (fix evlist (es : list rexpr) (s : state) : option (list Z * state) :=
+             match es with
+             | [] => Some ([], s)
+             | x :: r => match reval x te s with
+                         | Some (v, s1) => match evlist r s1 with
+                                           | Some (vs, s2) => Some (v :: vs, s2)
+                                           | None => None end
+                         | None => None end
+             end) es s with
+    | Some (vs, s1) => opf c vs s1
+    | None => None
     end
   end.
 
@@ -250,18 +247,18 @@ Fixpoint exec (fuel : nat) (l : stmts) (s : state) {struct fuel} : outcome :=
     | SNil => ONormal s
     | SCons x r =>
       match x with
-      | SAct a e => match eval EFUEL e s with
+      | SAct a e => match eval e s with
                     | Some (v, s1) => match act a (Some v) s1 with Some s2 => exec f r s2 | None => ORaise end
                     | None => ORaise end
       | SPass _ => exec f r s
       | SRet a None => match act a None s with Some s1 => ORet a s1 | None => ORaise end
-      | SRet a (Some e) => match eval EFUEL e s with
+      | SRet a (Some e) => match eval e s with
                            | Some (v, s1) => match act a (Some v) s1 with Some s2 => ORet a s2 | None => ORaise end
                            | None => ORaise end
       | SBreak _ => OBreak s
       | SContinue _ => OCont s
       | SIf c t e =>
-        match eval EFUEL c s with
+        match eval c s with
         | None => ORaise
         | Some (v, s') =>
           match exec f (if truth v then t else e) s' with
@@ -275,7 +272,7 @@ Fixpoint exec (fuel : nat) (l : stmts) (s : state) {struct fuel} : outcome :=
         | o => o
         end
       | SFor h tgt itr body orelse =>
-        match eval EFUEL itr s with
+        match eval itr s with
         | None => ORaise
         | Some (v, s0) =>
           match foract 0 h 0 (Some v) s0 with
@@ -298,7 +295,7 @@ with wloop (fuel : nat) (c : expr) (body orelse : stmts) (s : state) {struct fue
   match fuel with
   | O => OFuel
   | S f =>
-    match eval EFUEL c s with
+    match eval c s with
     | None => ORaise
     | Some (v, s2) =>
       if truth v then
@@ -350,21 +347,21 @@ Fixpoint run_ins (l : list instr) (te : tenv) (s : state) : rres :=
   | i :: r =>
     let testlast (b : bool) (s' : state) := match r with [] => RGo te s' (Some b) | _ => run_ins r te s' end in
     match i with
-    | IAct a e => match reval EFUEL e te s with
+    | IAct a e => match reval e te s with
                   | Some (v, s1) => match act a (Some v) s1 with Some s2 => run_ins r te s2 | None => RHalt ORaise end
                   | None => RHalt ORaise end
     | IPass _ | IBrk _ | ICnt _ => run_ins r te s
     | IRet a None => match act a None s with Some s1 => RHalt (ORet a s1) | None => RHalt ORaise end
-    | IRet a (Some e) => match reval EFUEL e te s with
+    | IRet a (Some e) => match reval e te s with
                          | Some (v, s1) => match act a (Some v) s1 with Some s2 => RHalt (ORet a s2) | None => RHalt ORaise end
                          | None => RHalt ORaise end
-    | ITest e => match reval EFUEL e te s with
+    | ITest e => match reval e te s with
                  | Some (v, s1) => testlast (truth v) s1
                  | None => RHalt ORaise end
-    | ISet k e => match reval EFUEL e te s with
+    | ISet k e => match reval e te s with
                   | Some (v, s1) => run_ins r (tset k v te) s1
                   | None => RHalt ORaise end
-    | IForIter h e => match reval EFUEL e te s with
+    | IForIter h e => match reval e te s with
                       | Some (v, s1) => match foract 0 h 0 (Some v) s1 with Some s2 => run_ins r te s2 | None => RHalt ORaise end
                       | None => RHalt ORaise end
     | IForInit tgt => match foract 1 0 tgt None s with Some s1 => run_ins r te s1 | None => RHalt ORaise end
